@@ -173,7 +173,8 @@ func Intersection(limit int, sets ...*Set) (*Set, bool) {
 	// Use divide & conquer to get the set intersections
 	switch len(sets) {
 	case 1:
-		return sets[0], false
+		// A single set is its own intersection; it is copied so that the caller never holds the stored set itself
+		return NewSet(sets[0].GetAll()), false
 	case 2:
 		intersection := NewSet([]string{})
 		var limitReached bool
